@@ -117,6 +117,21 @@ Theorem c06_round_trip_calm : forall w, 1 <= w -> forall unit, 0 < unit -> foral
   (total_supply s = 0 -> out_value ps rw <= in_value l sh ps + dt_pool_value td).
 Proof. intros. eapply round_trip_calm with (w := w) (unit := unit) (cfg := cfg) (s1 := s1) (rd := rd) (td := td) (s2 := s2) (tw := tw); eassumption. Qed.
 
+Theorem c06_round_trip_literal_calm : forall w, 1 <= w -> forall unit, 0 < unit -> forall cfg s l sh ps s1 rd td s2 rw tw,
+  wf_state w s -> wf_prices w ps -> in_range w l -> in_range w sh -> 0 <= value_to_amount_divisor s ->
+  calm w unit cfg s ps -> ordered_prices ps ->
+  deposit_exec_trace w unit cfg s l sh ps = Ok (s1, rd, td) ->
+  withdraw_exec_trace w unit cfg s1 (dr_minted rd) ps = Ok (s2, rw, tw) ->
+  funded_value ps td = 0 -> (0 < total_supply s \/ dt_pool_value td = 0) ->
+  out_value ps rw <= in_value l sh ps.
+Proof.
+  intros w Hw unit Hu cfg s l sh ps s1 rd td s2 rw tw Hs Hps Hl Hsh Hdv Hc Ho HD HW F C.
+  destruct (round_trip_calm w Hw unit Hu cfg s l sh ps s1 rd td s2 rw tw Hs Hps Hl Hsh Hdv Hc Ho HD HW) as [A B].
+  destruct Hs as ([S0 _] & _). destruct C as [C|C].
+  - specialize (A C). lia.
+  - destruct (Z.eq_dec (total_supply s) 0) as [Z0|N]; [specialize (B Z0)|specialize (A ltac:(lia))]; lia.
+Qed.
+
 (* ---------- no dilution of the other LPs ---------- *)
 (* deposit: pool value per token (deposit valuation) does not fall, provided the pool value
    grows by at least the credited value — proved for markets without open positions *)
